@@ -756,6 +756,13 @@ class Sim:
             self.obs.append(f"CONN {self.cname(c)} state={STATE.get(c.state, '?')} dir={'R' if c.is_receiver else 'S'} "
                             f"name={c.node_name or '-'} ident={c.host_identity or '-'} live={1 if live else 0} "
                             f"dwr={1 if c._last_dwr else 0}")
+        for c in self.conns:
+            # a connection whose connect() failed at once and that is still registered, or whose socket is still open
+            sk = self.conn_sock.get(c) or n.peer_sockets.get(c.ident)
+            if sk is not None and isinstance(getattr(sk, "connect_outcome", None), OSError):
+                live = c.ident in n.connections and n.connections[c.ident] is c
+                if live or not sk.closed:
+                    self.obs.append(f"ZOMBIE {self.cname(c)} registered={1 if live else 0} socketClosed={1 if sk.closed else 0}")
         for p in self.peers:
             cc = self.cname(p.connection) if p.connection is not None else "-"
             self.obs.append(f"PEER {p.node_name} conn={cc} reason={REASON.get(p.disconnect_reason, '?')} "
